@@ -129,6 +129,18 @@ def handle : List String → String
       let spec := String.join (orig.map fun _ => if sp == "1" then "T" else "K")
       s!"{labelCode c.target orig res}\t{spec}"
     | none => "bad-op"
+  | "docsubs" :: ws =>
+    -- documents separated by "|", each word one disabled source (code points joined by ".")
+    match (splitAll "|" ws).mapM (fun d => d.mapM nats?) with
+    | some hist =>
+      let r := createDocs charsubs hist
+      let show1 (t : SubTable) : String := ",".intercalate (t.map fun sd => dots sd.1 ++ ">" ++ dots sd.2)
+      let out := ";".intercalate (r.2.map show1) ++ "#" ++ show1 r.1
+      -- the property's expectation, written without the model: each document has every default entry whose
+      -- source it did not disable itself, and the defaults are intact at the end
+      let spec := ";".intercalate (hist.map fun d => show1 (charsubs.filter fun sd => !(d.contains sd.1))) ++ "#" ++ show1 charsubs
+      s!"{out}\t{spec}"
+    | none => "bad-op"
   | "subs" :: ws =>
     match natList? ws with
     | some cs => s!"{dots (applySubs charsubs cs)}\t-"
